@@ -338,6 +338,7 @@ pub fn main(a: Args) -> i32 {
     for (id, c, class) in &cases {
         let body = c.body();
         let line = format!("{} {}", id, body);
+        out.inflight(&line);
         let (impl_line, fail) = run_case(id, c);
         out.line("cases.txt", &line);
         out.line("impl.txt", &impl_line);
